@@ -116,6 +116,10 @@ def situations(luts, tier):
             kind = ('generic', 'independent', 'zero', 'long', 'mixed')[(r + len(out)) % 5]
             cap = (4, 8, 64, 8, 4)[(r + len(name)) % 5]
             out.append(dict(name=name, lut=lut, ops=ops, delays=kind, cap=cap, monotone_in=True, ovl_in=None, stale=r % 2))
+        # directed: no event at all on any operand (the output keeps LUT(0,0,0,0); whatever the line held before must not be read as transitions); constant 1 operands
+        out.append(dict(name=name, lut=lut, ops=[(0, []) if i < max(width, 1) else None for i in range(4)], delays='generic', cap=8, monotone_in=True, ovl_in=None, stale=0))
+        out.append(dict(name=name, lut=lut, ops=[None] * 4, delays='mixed', cap=4, monotone_in=True, ovl_in=None, stale=1))
+        out.append(dict(name=name, lut=lut, ops=[(1, []) if i < max(width, 1) else None for i in range(4)], delays='long', cap=4, monotone_in=True, ovl_in=None, stale=1))
         # directed: all operands switch at the same instant; a burst on one operand; a non-monotonic operand; a marked operand
         out.append(dict(name=name, lut=lut, ops=[(i % 2, [4.0]) if i < max(width, 1) else None for i in range(4)], delays='generic', cap=8, monotone_in=True, ovl_in=None))
         out.append(dict(name=name, lut=lut, ops=[(1, [1.0, 1.25, 1.5, 1.75, 2.0, 2.25]) if i == 0 else ((0, [1.5]) if i < width else None) for i in range(4)], delays='mixed', cap=4, monotone_in=True, ovl_in=None))
